@@ -53,6 +53,25 @@ def flattenTrailing (dims : List Nat) (flat : Nat) : R (List Nat) :=
   else if dims.length < flat then throw .indexOOB
   else pure (dims.take (dims.length - flat) ++ [prod (dims.drop (dims.length - flat))])
 
+/-- One iteration of the `sliced_op` loop: the slices at the `n`-th leading multi-index, the output
+    offset (`flatten_indices(&indices[..output_dimensions.len()], output_dimensions)`), the block. -/
+def slicedBody (arrays : List (Tensor S)) (op : List (List S) → R (List S))
+    (inDims outDims : List Nat) (k : Nat) (n : Nat) : R (List S) := do
+  let leadingCount := inDims.length - k
+  let leading := inDims.take leadingCount
+  let outGroup := prod (outDims.drop leadingCount)
+  let idx := unflatten leading n
+  let slices ← slicesAt arrays k leadingCount idx
+  let full := idx ++ List.replicate (max inDims.length outDims.length - leadingCount) 0
+  let off ← flattenIndices (full.take outDims.length) outDims
+  if off + outGroup > prod outDims then throw .sliceOOB
+  -- every modelled caller shares its leading dimensions between input and output, so block
+  -- `n` lands at `n * outGroup`; anything else is outside the model and is reported loudly
+  if off != n * outGroup then throw .modelGap
+  let block ← op slices
+  if block.length != outGroup then throw .modelGap
+  pure block
+
 /-- `Array::sliced_op` without the graph bookkeeping.
     `op` receives the operand slices and returns the output block (the output starts at zero). -/
 def slicedOp [ScalarOps S] (arrays : List (Tensor S)) (op : List (List S) → R (List S))
@@ -75,19 +94,7 @@ def slicedOp [ScalarOps S] (arrays : List (Tensor S)) (op : List (List S) → R 
   else
     -- the slices of the first iteration are taken before the loop
     let _ ← slicesAt arrays k leadingCount (List.replicate leadingCount 0)
-    let blocks ← tabulateM (fun n => do
-      let idx := unflatten leading n
-      let slices ← slicesAt arrays k leadingCount idx
-      -- `flatten_indices(&indices[..output_dimensions.len()], output_dimensions)`
-      let full := idx ++ List.replicate (max inDims.length outDims.length - leadingCount) 0
-      let off ← flattenIndices (full.take outDims.length) outDims
-      if off + outGroup > outputLength then throw .sliceOOB
-      -- every modelled caller shares its leading dimensions between input and output, so block
-      -- `n` lands at `n * outGroup`; anything else is outside the model and is reported loudly
-      if off != n * outGroup then throw .modelGap
-      let block ← op slices
-      if block.length != outGroup then throw .modelGap
-      pure block) leadingLength
+    let blocks ← tabulateM (slicedBody arrays op inDims outDims k) leadingLength
     if leadingLength * outGroup != outputLength then throw .modelGap
     Tensor.mk? outDims' blocks.flatten
 
